@@ -361,6 +361,10 @@ def judge_all(ctx, traces, by_id, per_batch=12000, module="ManifestTrace", cfg="
         if rc != 0 or "Model checking completed. No error has been found" not in out:
             raise vlib.InfraError("judge %s failed (rc=%s):\n%s" % (module, rc, "\n".join(str(out).splitlines()[-40:])))
         flat = [ev for t in b for ev in t]
+        for ev in flat:
+            if ev.get("segtype_unknown") and not any("internal segment type" in d for d in ctx.drift):
+                ctx.drift.append("gofs driver: filenode.segments holds an internal segment type the driver does not know; "
+                                 "segment-level observation dropped, byte-level reads decide")
         for ln in sorted({int(x) for x in re.findall(r'"DRIFT_LINE", (\d+)', out)}):
             # an event the contract allows but which fails a drift-only clause (beyond the statement): never a verdict
             ndrift[0] += 1
